@@ -693,3 +693,86 @@ def c17_10(R):
             else:
                 R.fail([sn.name, "vsock-wiring", "tx-bufsize"], "the transmit buffer is not sized from vsock_tx_bufsize_bytes_initial", where=c.where(), instance="vsock-wiring")
     R.floor("wired fields of the connection object", n, 18)
+
+
+def _sum_of_ring_lens(b, op, depth=0):
+    """the operand is built only from slice lengths of the TX ring's as_slices() (tx_len = s.0.len() + s.1.len())"""
+    if depth > 6:
+        return False
+    t = trace(b, op)
+    if t.kind == "call" and call_matches(t.root[1], ("slice::len", "core::slice::len", "<impl [T]>::len")):
+        r = trace(b, t.root[1].args[0])
+        return r.kind == "call" and (r.root[1].resolved or r.root[1].callee or "").endswith("as_slices")
+    if t.kind == "rv" and t.root[1].rv.kind == "bin" and t.root[1].rv.op in ("Add", "AddWithOverflow", "AddUnchecked"):
+        return all(_sum_of_ring_lens(b, o, depth + 1) for o in t.root[1].rv.ops)
+    return False
+
+
+def _from_ring_len(b, op, seen, depth=0):
+    """the value is tx_len (the sum of the ring's slice lengths) with something subtracted: a chain of Sub / saturating_sub / checked_sub on the left operand"""
+    if depth > 10 or op.kind == "const":
+        return False
+    if _sum_of_ring_lens(b, op):
+        return True
+    t = trace(b, op)
+    if [f for f in t.fields if not f.startswith(("tuple.", "Option::Some."))]:
+        return False
+    if t.kind == "rv" and t.root[1].rv.kind == "bin" and t.root[1].rv.op in ("Sub", "SubWithOverflow", "SubUnchecked"):
+        return _from_ring_len(b, t.root[1].rv.ops[0], seen, depth + 1)
+    if t.kind == "call" and call_matches(t.root[1], ("saturating_sub", "checked_sub", "wrapping_sub")):
+        return _from_ring_len(b, t.root[1].args[0], seen, depth + 1)
+    if t.kind == "multi":
+        key = t.root[1]
+        if key in seen:
+            return False
+        seen.add(key)
+        # a loop variable: `remaining = tx_len - segmented_len` initially, `remaining -= payload_size` round the loop
+        return any(isinstance(d, Stmt) and d.rv.ops and _from_ring_len(b, d.rv.ops[0], seen, depth + 1) for d in t.root[3])
+    return False
+
+
+@rule("C17.11", ["C17", "C03", "C18", "C01"], ["E2", "E6"], "the unsegmented byte count the FIN gate reads is refreshed on every exit that can leave written bytes unsegmented",
+      "The local FIN is scheduled only under !unsent_data_exists() (C17.4), which reads this_poll.unsegmented_data - a value that only split_tx_queue_into_segments stores and that survives from poll to "
+      "poll. Every Ok exit of that function must therefore pass a store to it, except where no byte can be waiting or the gate is not consulted: the ring is empty (tx_len == 0), or the remote "
+      "FIN was already seen (is_remote_fin_or_later = LastAck|Closed, both local-FIN-or-later states, C17.7, in which the gate is closed anyway). An exit that skips the store - while an MTU probe is "
+      "outstanding, when Nagle holds a tail back - leaves a stale 0 after the application wrote more and closed: the FIN goes out with the sequence number of data that was accepted and never sent.")
+def c17_11(R):
+    from utpsa.flow import must_pass_blocks
+    b = R.body(VS + "::split_tx_queue_into_segments")
+    stores = [s for s in b.stmts() if written_field(b, s) == "ThisPoll.unsegmented_data"]
+    R.floor("stores to this_poll.unsegmented_data", len(stores), 1)
+    # the FIN gate's predicate tables make the second exception sound
+    rf = STATE_PREDICATES["is_remote_fin_or_later"]["true"]
+    lf = STATE_PREDICATES["is_local_fin_or_later"]["true"]
+    R.require(rf <= lf, "every remote-FIN-or-later state is a local-FIN-or-later state")
+    for s in stores:
+        if s.rv.ops and _from_ring_len(b, s.rv.ops[0], set()):
+            R.ok("unsegmented=ring-minus-segmented", b.name, "stored value derives from tx_len by subtraction (%s)" % s.where())
+        else:
+            R.fail([b.name, "unsegmented_data-store", "value-not-derived-from(tx_len - ...)"], "this_poll.unsegmented_data is set to something that is not what remains of the ring length after "
+                   "subtracting the segmented bytes: the FIN gate no longer sees the bytes waiting in the ring", where=s.where(), instance="unsegmented=ring-minus-segmented")
+    sb = {s.bb for s in stores}
+    exits = [d for d in b.all_defs(0) if isinstance(d, Stmt) and d.rv.kind == "agg" and d.rv.j.get("variant") == "Ok"]
+    R.floor("Ok exits of split_tx_queue_into_segments", len(exits), 3)
+    for e in exits:
+        ctl = controlling(b, e.bb)
+        descs = [d for _c, _t, d, *_ in ctl]
+        excuse = None
+        for c, truth, d, *_ in ctl:
+            z = zero_test(c, truth)
+            if z is not None and _sum_of_ring_lens(b, z):
+                excuse = "ring empty"
+            if d == "call:VirtualSocketState::is_remote_fin_or_later=true":
+                excuse = "remote FIN seen: the FIN gate is closed in LastAck|Closed"
+        if excuse:
+            R.ok("exit-refreshes-unsegmented", b.name, "exit at %s excused: %s" % (e.where(), excuse))
+            continue
+        before_here = any(s.bb == e.bb and s.idx < e.idx for s in stores)
+        if before_here or must_pass_blocks(b, [e.bb], sb - {e.bb})[0]:
+            R.ok("exit-refreshes-unsegmented", b.name, "exit at %s passes a store to this_poll.unsegmented_data" % e.where())
+        else:
+            under = sorted(set(x for x in descs if not x.startswith("bin:")))
+            R.fail([b.name, "Ok-exit-without(unsegmented_data store)"] + under,
+                   "split_tx_queue_into_segments returns Ok without refreshing this_poll.unsegmented_data on an exit where the ring can hold bytes that were never segmented (%s): unsent_data_exists() keeps "
+                   "the value of an earlier poll, so after the application writes more and closes, the FIN is sent ahead of - and with the sequence number of - data that was accepted but never transmitted"
+                   % (", ".join(under) or "unconditional"), where=e.where(), instance="exit-refreshes-unsegmented")
